@@ -6,11 +6,12 @@ from .values import Sym, mk_bool, mk_int, int_term, vand, Unsupported, ctx
 
 class SBytes:
     """Immutable (bytes) or mutable (bytearray) sequence of byte values."""
-    __slots__ = ('items', 'mutable')
+    __slots__ = ('items', 'mutable', 'src')
 
-    def __init__(self, items, mutable=False):
+    def __init__(self, items, mutable=False, src=None):
         self.items = list(items)
         self.mutable = mutable
+        self.src = src     # (int value, length, byteorder) when made by int.to_bytes
 
     def __repr__(self):
         return ('bytearray' if self.mutable else 'bytes') + '<' + ','.join(
@@ -130,7 +131,7 @@ def to_bytes(x, n, order):
                 items.append((x >> (8 * i)) & 0xFF)
         if order == 'big':
             items = items[::-1]
-        return SBytes(items)
+        return SBytes(items, False, (x, n, order))
     if x < 0 or x >= (1 << (8 * n)):
         raise PyRaise(make_exc('OverflowError', 'int too big to convert'))
     return SBytes(list(int(x).to_bytes(n, order)))
